@@ -720,7 +720,8 @@ func (env *CEnv) call(e *CExpr) SV {
 			args[i] = env.eval(a)
 			if isSeqType(sf.Params[i].Type) {
 				args[i] = env.resolveSeq(args[i])
-			} else if args[i].K == KSeq {
+			} else if args[i].K == KSeq && sf.Recursive {
+				// (a macro takes a slice of any element type as it is: its body indexes it like any other slice)
 				env.errf("spec %s: sequence passed for %s parameter %s", sf.Name, sf.Params[i].Type, sf.Params[i].Name)
 			}
 		}
